@@ -214,10 +214,10 @@ impl<D: DataMut> GGLWECompressed<D> {
 
 impl<D: DataMut> ReaderFrom for GGLWECompressed<D> {
     fn read_from<R: std::io::Read>(&mut self, reader: &mut R) -> std::io::Result<()> {
-        self.k = TorusPrecision(reader.read_u32::<LittleEndian>()?);
-        self.base2k = Base2K(reader.read_u32::<LittleEndian>()?);
-        self.dsize = Dsize(reader.read_u32::<LittleEndian>()?);
-        self.rank_out = Rank(reader.read_u32::<LittleEndian>()?);
+        let k: TorusPrecision = TorusPrecision(reader.read_u32::<LittleEndian>()?);
+        let base2k: Base2K = Base2K(reader.read_u32::<LittleEndian>()?);
+        let dsize: Dsize = Dsize(reader.read_u32::<LittleEndian>()?);
+        let rank_out: Rank = Rank(reader.read_u32::<LittleEndian>()?);
         let seed_len: usize = reader.read_u32::<LittleEndian>()? as usize;
         // Grow with the bytes actually present in the stream: a corrupted count
         // must not drive the allocation.
@@ -227,8 +227,14 @@ impl<D: DataMut> ReaderFrom for GGLWECompressed<D> {
             reader.read_exact(&mut s)?;
             seed.push(s);
         }
+        self.data.read_from(reader)?;
+        // Only commit metadata after successful read.
+        self.k = k;
+        self.base2k = base2k;
+        self.dsize = dsize;
+        self.rank_out = rank_out;
         self.seed = seed;
-        self.data.read_from(reader)
+        Ok(())
     }
 }
 
